@@ -696,6 +696,7 @@ bool vh::run_case(std::string const& op, Toks& in, Out& impl, Out& ref)
     if (name.rfind("ub_", 0) == 0) {
 #ifdef C12_UBSAN
         name = name.substr(3);
+        if (name == "cast") { name = "castw"; }   // the neighbours that do not overflow may leave the target type
 #else
         impl.tok("skip");
         return true;
